@@ -142,9 +142,13 @@ fn same(a: &Obs, b: &Obs) -> bool {
 impl<'a> Explorer<'a> {
     fn run_call(&self, c: usize) -> (Obs, bool) {
         let (ri, di) = self.calls[c];
-        let (r0, d0) = (self.rules[ri].clone(), self.datas[di].clone());
-        let o = exec::apply(&self.rules[ri], &self.datas[di]);
+        // as a real caller does: the inputs of a call are built (parsed) for it and dropped after it, so
+        // heap addresses are reused from call to call - anything remembered by address goes stale
+        let (r0, d0): (Value, Value) = (serde_json::from_str(&self.rules[ri].to_string()).unwrap(), serde_json::from_str(&self.datas[di].to_string()).unwrap());
+        let o = exec::apply(&r0, &d0);
         let intact = r0 == self.rules[ri] && d0 == self.datas[di] && r0.to_string() == self.rules[ri].to_string() && d0.to_string() == self.datas[di].to_string();
+        drop(r0);
+        drop(d0);
         (o, intact)
     }
 
@@ -172,6 +176,9 @@ impl<'a> Explorer<'a> {
                 let _ = writeln!(f, "{}", rec);
             }
         }
+        // nothing of this call stays allocated while its successors run: the next call's inputs and
+        // temporaries land where this call's were (a caller's parse - apply - drop loop)
+        drop(o);
         if history.len() < self.max_depth {
             self.expand(history);
         }
@@ -226,7 +233,45 @@ pub fn coercion_datas() -> Vec<Value> {
     vec![json!({"a": "12px"}), json!({"a": " 12 "}), json!({"a": "0x10"}), json!({"a": "1e3"}), json!({"a": ""}), json!({"a": "1,2"}), json!({"a": [12]}), json!({"a": "\u{661}\u{662}"})]
 }
 
+/// Path-lexer alphabet: keys that leave a path scanner in each of its states (ends in an escape
+/// character, ends in a separator, starts with a separator, starts with an escape, doubled separator,
+/// empty) through var / missing / missing_some, on data holding both the flat and the nested reading.
+pub fn lexer_rules() -> Vec<Value> {
+    let keys = ["x\\", ".a", "\\.a", "a.", "a..b", "", "a\\", "\\", ".", "a\\.b", "a.b", "q\\", "..", "b.0", "b.-1", "\\a"];
+    let mut r = Vec::new();
+    for k in keys {
+        r.push(json!({"var": k}));
+        r.push(json!({"var": [k, "dflt"]}));
+        r.push(json!({"missing": [k]}));
+    }
+    r.push(json!({"missing_some": [1, ["x\\", ".a"]]}));
+    r.push(json!({"if": [{"var": "zz\\"}, "u", {"var": ".a"}]}));
+    r.push(json!({"cat": [{"var": "a\\"}, "|", {"var": "\\.a"}]}));
+    r
+}
+
+pub fn lexer_datas() -> Vec<Value> {
+    vec![
+        json!({".a": "flat", "": {"a": "nested", "": "ee"}, "\\": {"a": "wrong"}, "a": {"": "empty-seg", "b": "ab", ".b": "a-dot-b"}, "a.b": "flat-ab", "x\\": 1, "a\\": 2, "b": "héy", "a.": "flat-a-dot"}),
+        json!({"a": {"b": 1}, "b": [10, 20]}),
+        json!(["zero", {"a": 1}]),
+    ]
+}
+
+/// Shape twins: the same shape and the same byte lengths as each other, different contents (40-byte
+/// strings): whatever is remembered about one by position, length or address is wrong for the other.
+pub fn twin_datas() -> Vec<Value> {
+    vec![
+        json!({"a": "A--------------------------------------a", "b": {"c": "A======================================a"}, "xs": ["A--------------------------------------1", "A--------------------------------------2"], "n": 11}),
+        json!({"a": "B--------------------------------------b", "b": {"c": "B======================================b"}, "xs": ["B--------------------------------------3", "B--------------------------------------4"], "n": 22}),
+        json!("A--------------------------------------a"),
+        json!("B--------------------------------------b"),
+    ]
+}
+
 pub fn run(ctx: &mut Ctx) {
+    run_alphabet(ctx, "twins", rules(), twin_datas(), 40, 2);
+    run_alphabet(ctx, "lexer", lexer_rules(), lexer_datas(), 24, 2);
     run_alphabet(ctx, "main", rules(), datas(), 40, 3);
     run_alphabet(ctx, "coercion", coercion_rules(), coercion_datas(), 12, 4);
 }
@@ -300,7 +345,7 @@ fn run_alphabet(ctx: &mut Ctx, tag: &str, rules: Vec<Value>, datas: Vec<Value>, 
     let core_rules = core_rule_count.min(rules.len());
     let core: Vec<usize> = calls.iter().enumerate().filter(|(_, (ri, di))| *ri < core_rules && *di < core_data_count).map(|(i, _)| i).collect();
     let mut ex = Explorer { progress: ctx.progress_addr(), calls: calls.clone(), rules, datas, isolated, shared, vio_path: vio_path.clone(), max_depth };
-    let mut history = Vec::new();
+    let mut history = Vec::with_capacity(8);
     for c in 0..calls.len() {
         if !ctx.mine() {
             continue;
@@ -364,7 +409,11 @@ pub fn replay(rec: &Value) -> i32 {
     let mut lines = Vec::new();
     let mut last = None;
     for (i, h) in hist.iter().enumerate() {
-        let o = exec::apply(&h["rule"], &h["data"]);
+        // as in the explorer: inputs built for the call and dropped after it
+        let (r0, d0): (Value, Value) = (serde_json::from_str(&h["rule"].to_string()).unwrap(), serde_json::from_str(&h["data"].to_string()).unwrap());
+        let o = exec::apply(&r0, &d0);
+        drop(r0);
+        drop(d0);
         lines.push(format!("call {}: {} on {} -> {}", i + 1, h["rule"], h["data"], o.show()));
         last = Some((h.clone(), o));
     }
